@@ -135,8 +135,9 @@ def _merge_runs(*datasets: "xr.Dataset") -> "xr.Dataset":
 
     try:
         return xr.combine_by_coords(datasets, combine_attrs="override")
-    except ValueError:
+    except (ValueError, TypeError):
         # Not a complete grid of parameter values (e.g. 'sequential' mode)
+        # or parameter values that cannot be ordered (e.g. texts mixed with numbers)
         return xr.merge(datasets)
 
 
